@@ -211,13 +211,28 @@ theorem initWith_linv (cfg : Config S) (P : NodeId → Proto S σ) (pre : List (
     ⟨init_linv cfg P, by rw [init_eq]; split <;> rfl⟩
     (fun n p w h => runProg_linv_fresh cfg n p w h.1 h.2) pre
 
+/-- a request program issued from outside any callback — at any moment of the run — adds only request
+    observations: the lifecycle shape is untouched -/
+theorem runProg_linv (cfg : Config S) (n : NodeId) (p : Prog S σ) (w : World S σ) (h : LInv cfg w) :
+    LInv cfg (runProg cfg n p w).1 := by
+  have e := ext_runProg cfg n p w
+  obtain ⟨l, hl, hq⟩ := runProg_rtrace cfg n p w
+  refine ⟨?_, ?_, ?_⟩
+  · rw [e.iter_eq, e.exec_eq]; exact h.iter_eq
+  · intro hi
+    exact (runProg_linv_fresh cfg n p w h (by rw [← e.init_eq]; exact hi)).1.fresh hi
+  · intro hi
+    have hi0 : w.initialized = true := by rw [← e.init_eq]; exact hi
+    have hfl : l.filter isLife = [] := by
+      rw [List.filter_eq_nil_iff]
+      intro o ho
+      simp [isLife_request (hq o ho)]
+    rw [hl, List.filter_append, hfl, List.nil_append, h.shape hi0, e.fin_eq, e.exec_eq,
+      reportedTime_congr cfg e.now_eq]
+
 theorem reachable_linv {cfg : Config S} (hdt : 0 ≤ cfg.dt) {P : NodeId → Proto S σ} {w : World S σ}
-    (h : Reachable cfg P w) : LInv cfg w := by
-  obtain ⟨pre, n, rfl⟩ := h
-  suffices ∀ n (w : World S σ), LInv cfg w → LInv cfg (steps cfg P n w) from this n _ (initWith_linv cfg P pre).1
-  intro n
-  induction n with
-  | zero => intro w hw; exact hw
-  | succ n ih => intro w hw; exact ih _ (step_linv cfg hdt P w hw)
+    (h : Reachable cfg P w) : LInv cfg w :=
+  h.rec_inv (init_linv cfg P) (fun w _ hw => step_linv cfg hdt P w hw)
+    (fun w n p _ hw => runProg_linv cfg n p w hw)
 
 end Sim
